@@ -41,6 +41,7 @@ type consLookup func(h clienttypes.Height) (*ibctm.ConsensusState, bool)
 type verdict struct {
 	N, E   bool
 	Failed []string // clauses of N that do not hold
+	Gap    string   // first strict-only condition that fails when N holds and E does not
 	// literal-reading extras for misbehaviour headers (not part of N there, see DESIGN / report)
 	WithinDrift, SameRevision bool
 }
@@ -273,18 +274,33 @@ func refUpdate(cp clientParams, h *ibctm.Header, lookup consLookup, now time.Tim
 	v.SameRevision = revisionOf(hdr.ChainID) == h.TrustedHeight.RevisionNumber
 
 	// strict predicate
-	e := v.N && p.headerVB
-	e = e && hdr.Time.After(cons.Timestamp)
-	e = e && hdr.Time.Before(now.Add(cp.MaxClockDrift))
-	if e {
-		adjacent := uint64(hdr.Height) == h.TrustedHeight.RevisionHeight+1
-		if adjacent {
-			e = bytes.Equal(hdr.ValidatorsHash, cons.NextValidatorsHash)
-		} else {
-			e = seqTally(p.tvals.Validators, commit, cp.ChainID, floorDiv(ttotal, cp.TLNum, cp.TLDen), false)
-		}
-		e = e && seqTally(p.vals.Validators, commit, cp.ChainID, floorDiv(total, 2, 3), true)
+	if !v.N {
+		return v
 	}
+	gap := func(g string) verdict { v.Gap = g; return v }
+	if !p.headerVB {
+		return gap("header-validate-basic")
+	}
+	if !hdr.Time.After(cons.Timestamp) {
+		return gap("time-not-after-trusted-time")
+	}
+	if !hdr.Time.Before(now.Add(cp.MaxClockDrift)) {
+		return gap("time-equals-now+drift")
+	}
+	if uint64(hdr.Height) == h.TrustedHeight.RevisionHeight+1 {
+		if !bytes.Equal(hdr.ValidatorsHash, cons.NextValidatorsHash) {
+			return gap("adjacent-header-with-other-validator-set")
+		}
+	} else if !seqTally(p.tvals.Validators, commit, cp.ChainID, floorDiv(ttotal, cp.TLNum, cp.TLDen), false) {
+		if new(big.Int).Mul(overlap, new(big.Int).SetUint64(cp.TLDen)).Cmp(new(big.Int).Mul(ttotal, new(big.Int).SetUint64(cp.TLNum))) == 0 {
+			return gap("trusted-power-exactly-at-trust-level")
+		}
+		return gap("trusted-set-signature-walk(invalid-or-duplicate-vote-before-threshold)")
+	}
+	if !seqTally(p.vals.Validators, commit, cp.ChainID, floorDiv(total, 2, 3), true) {
+		return gap("own-set-signature-walk(invalid-vote-or-slot-mismatch-before-threshold)")
+	}
+	e := true
 	v.E = e
 	return v
 }
